@@ -121,3 +121,4 @@ Print Assumptions C05_Translation_rev_H.
 Theorem C05_C05_hyps_satisfiable : cos (PI/3) <> 0 /\ (1/2)*(1/2) + (1/2)*(1/2) + (1/2)*(1/2) + (1/2)*(1/2) <> 0 /\ is_rot (RotZ ROps (PI/3)).
 Proof. exact (@C05_hyps_satisfiable). Qed.
 Print Assumptions C05_C05_hyps_satisfiable.
+
